@@ -126,6 +126,9 @@ def sync_rules(ctx, g, wrap, wpath):
             ctx.require(" mut " in sig["inputs"][0] and sig["inputs"][0].startswith("&"), "T8-unite-needs-mut", d, "receiver", "unite takes &mut self",
                         "unite no longer takes &mut self: unions can interleave with outstanding shared borrows")
     ctx.floor("public methods of " + wrap, n, 4)
+    cl = ctx.body(M + wpath + "::classes")
+    for bi, t in cl.calls(exact=M + wpath + "::find"):
+        every_iteration_reaches(ctx, "T3-classes-covers-all-elements", cl, bi, "element-loop->find", "some queried element is skipped by classes(): the listing does not partition the queried elements")
 
 
 def parent_stores(b, g, field="parent"):
